@@ -707,7 +707,7 @@ func main() {
 		"Known-finding class avoided (C23-1/2/3, DESIGN 7 #14): a run of comments directly followed by an automatic semicolon in the go1.23 stream [in skip mode except when that comment ends the input = the property's allowance] - generated inputs are defused by inserting an explicit ';' in front of the run; bounded-exhaustive inputs of the class are only checked for error equivalence. "+
 		"Oracle: extension-free (std stream has no '~' token, no ILLEGAL '#', no identifier macro) => fork errors>0 iff std errors>0, and if std has no error: identical (token, literal, offset, line, column, //line-adjusted position) sequences and line tables. "+
 		"A case is non-trivial when the full sequence comparison applied (extension-free, no error, outside the known-finding class); distinct by mode+input bytes")
-	h := &harness{a: a, rep: rep, stride: 12}
+	h := &harness{a: a, rep: rep, stride: 20}
 	if a.Thorough() {
 		h.stride = 40
 	}
@@ -782,7 +782,7 @@ func main() {
 	}
 
 	// 3. soups, numbers
-	nSoup, nNum, nMut, nFiles := 2500, 1500, 2500, 300
+	nSoup, nNum, nMut, nFiles := 5000, 2500, 5000, 300
 	if a.Thorough() {
 		nSoup, nNum, nMut, nFiles = 60000, 40000, 60000, 1<<30
 	}
